@@ -153,7 +153,7 @@ Definition obs_of_built (g : built) : built_obs :=
 
 Definition model_case (f : pyfunc) (steps : list step) (fwd : bool) (calls : list call) : c13_case :=
   mkCase f steps fwd calls (func_sig f) (f_async f) (map (call_func f) calls)
-         (func_sig f) (f_dict f)
+         (func_sig f) (f_dict f) (model_again f)
          (map obs_of_built (fst (run_steps f steps))) (snd (run_steps f steps))
          (match snd (run_steps f steps) with
           | None => map (call_top f (rev (fst (run_steps f steps))) fwd) calls
@@ -343,6 +343,12 @@ Proof.
   - rewrite andb_false_r. reflexivity.
 Qed.
 
+Lemma model_again_eq f : wf_func f -> model_again f = Some (func_sig f).
+Proof.
+  intro WF. unfold model_again. destruct (wraps_same_signature f WF) as [g [E [S _]]].
+  rewrite E, S, (sig_of_func_sig f (wf_len f WF)). reflexivity.
+Qed.
+
 (* THE MAIN REFINEMENT: for every well-formed base function, every non-empty
    stack of wraps steps and all calls with distinct keywords, the model's
    observation satisfies the Spec predicate [holds]. *)
@@ -353,11 +359,12 @@ Theorem model_holds f steps fwd calls :
   holds (model_case f steps fwd calls) = true.
 Proof.
   intros WF NE NZ NDc PL. unfold holds, model_case.
-  cbn [k_f k_fsig k_fasync k_calls k_direct k_steps k_forward k_levels k_fail k_top_calls k_fsig_after k_fdict_after].
+  cbn [k_f k_fsig k_fasync k_calls k_direct k_steps k_forward k_levels k_fail k_top_calls k_fsig_after k_fdict_after k_again].
   rewrite (func_sig_wf f WF).
   assert (DIR : map (bind (sg_params (func_sig f))) calls = map (call_func f) calls).
   { apply map_ext. intro c. unfold call_func. rewrite (sig_of_func_sig f (wf_len f WF)). reflexivity. }
-  rewrite DIR, (list_eqb_refl _ rb_eqb_refl), sig_eqb_refl, dict_equiv_refl. cbn [andb].
+  rewrite DIR, (list_eqb_refl _ rb_eqb_refl), sig_eqb_refl, dict_equiv_refl, (model_again_eq f WF). cbn [option_eqb].
+  rewrite sig_eqb_refl. cbn [andb].
   destruct (levels_model f steps f WF) as [top [LO REST]].
   { repeat split. }
   { exact NZ. }
@@ -403,9 +410,9 @@ Theorem model_agrees f steps fwd calls :
   agree (model_case f steps fwd calls) = true.
 Proof.
   intros WF NZ. unfold agree, model_case.
-  cbn [k_f k_fsig k_fasync k_calls k_direct k_steps k_forward k_levels k_fail k_top_calls k_fsig_after k_fdict_after].
+  cbn [k_f k_fsig k_fasync k_calls k_direct k_steps k_forward k_levels k_fail k_top_calls k_fsig_after k_fdict_after k_again].
   rewrite (sig_of_func_sig f (wf_len f WF)). cbn [res_eqb]. rewrite sig_eqb_refl, bool_eqb_refl.
-  rewrite (list_eqb_refl _ rb_eqb_refl), dict_equiv_refl. cbn [andb].
+  rewrite (list_eqb_refl _ rb_eqb_refl), dict_equiv_refl, (option_eqb_refl _ sig_eqb_refl). cbn [andb].
   pose proof (run_steps_sigs steps f WF NZ) as SG.
   destruct (run_steps f steps) as [gs e]. cbn [fst snd] in *.
   rewrite (forall2b_level_agree gs SG), (option_eqb_refl _ exn_eqb_refl). cbn [andb].
